@@ -141,6 +141,40 @@ def key(case):
 
 # ------------------------------------------------------------------------------- property oracle
 
+def check_wrappers(cls):
+    """`Activated` / `Aggregated` terms around monotonic terms are terms too: each either declares itself monotonic - then its
+    own membership at z(y) must be y for every y below its height - or refuses the operation"""
+    inner = [fl.Arc("a", 0.0, 1.0), fl.Concave("c", 0.25, 0.75), fl.Ramp("r", 0.0, 1.0), fl.Ramp("r", 1.0, 0.0),
+             fl.Sigmoid("s", 0.5, 8.0), fl.SShape("s", 0.0, 1.0), fl.ZShape("z", 0.0, 1.0)]
+    for term in inner:
+        for degree in (0.6, 1.0, 0.25):
+            for impl in (fl.Minimum(), fl.AlgebraicProduct(), None):
+                if cls == "Activated":
+                    w = fl.Activated(term, degree, impl)
+                    what = f"Activated({type(term).__name__}, {degree}, {type(impl).__name__ if impl else None})"
+                else:
+                    w = fl.Aggregated("g", 0.0, 1.0, fl.Maximum(), [fl.Activated(term, degree, impl or fl.Minimum())])
+                    what = f"Aggregated([Activated({type(term).__name__}, {degree})])"
+                if not bool(w.is_monotonic()):
+                    try:
+                        v = w.tsukamoto(0.5)
+                    except RuntimeError:
+                        continue
+                    except Exception as ex:  # noqa: BLE001
+                        return False, f"{what}.tsukamoto raised {type(ex).__name__} instead of RuntimeError"
+                    return False, f"{what} is not monotonic but tsukamoto(0.5) returned {v!r}"
+                if impl is None and cls == "Activated":
+                    continue            # its membership needs an implication operator
+                for y in (0.1, 0.3, 0.55, 0.65, 0.9):
+                    with np.errstate(all="ignore"):
+                        z = float(np.asarray(w.tsukamoto(y), dtype=float))
+                        back = float(np.asarray(w.membership(z), dtype=float))
+                    if not (back == back and abs(back - y) <= 1e-9):
+                        return False, (f"{what} declares itself monotonic, but for y = {y}: z(y) = {z!r} and its membership at z(y) is "
+                                       f"{back!r}")
+    return True, "ok"
+
+
 def check_refuse(cls):
     """terms that are not monotonic refuse the operation"""
     try:
@@ -151,6 +185,10 @@ def check_refuse(cls):
             t = fl.Aggregated("t", 0, 1)
     except Exception as ex:  # noqa: BLE001
         return False, f"cannot construct {cls}: {ex!r}"
+    if cls in ("Activated", "Aggregated"):
+        ok, d = check_wrappers(cls)
+        if not ok:
+            return ok, d
     mono = bool(t.is_monotonic())
     if cls in MONO:
         return (mono, f"{cls}.is_monotonic() = {mono}")
